@@ -3,6 +3,7 @@ import ExoVerif.Model.Avs
 /- driver for the C20 correspondence. Words: `~` = nil, `-` = empty, lists comma-separated.
    ops: avs.reset | avs.env <operators> <assets> | avs.epochs id=n,… | avs.update … | avs.opt … |
         avs.task … | avs.bls … | avs.submit … | avs.challenge … | avs.block … | avs.dump |
+        (avs.challenge: abiOk = 0 | 1 | 2, 2 = the ABI packer panics on the stored response) |
         avs.note … (a ledger / price change of the environment: delegation, undelegation, slash, oracle
         price; its effect reaches the model as the self-delegated value of the next avs.opt line) -/
 namespace ExoVerif.Driver.Avs
@@ -86,7 +87,8 @@ def stepLine (s : State) (w : List String) : State × String :=
     (s', r ++ "|" ++ (match KV.find? s'.results (i.op, i.taskAddr, i.id) with | some x => showRes x | none => "-"))
   | ["avs.challenge", taskAddr, id, op, taskHash, abiOk, callerOk, caller] =>
     let c : Challenge := { taskAddr := str taskAddr, id := parseNat! id, op := op, taskHash := str taskHash,
-                           abiHashOk := b abiOk, callerOk := b callerOk, caller := caller }
+                           abiHashOk := b abiOk, callerOk := b callerOk, caller := caller,
+                           abiPanics := abiOk == "2" }
     let (s', r) := step s (.challenge c)
     (s', r ++ "|" ++ (if KV.has s'.challenges (c.op, c.taskAddr, c.id) then "1" else "0"))
   | ["avs.block", ends, avsPw, opPw, eps] =>
